@@ -32,6 +32,22 @@ HOSTILE_NAMES = ["x\\{y", "x\\}y", "\\{", "\\}", "x\\{\\}y", "\\}\\{", "{0}", "{
                  "__dict__", "ID", "ENTRYTYPE", "\\\"", "\\,", "\\=", "\\@", "\\#", "x\\ y", "\t", "x\ty", "\r", "x" * 300, "é" * 70, "\\{" * 40, "\\\\" * 40 + "\\}",
                  # digit-like texts: str.isdigit()/isdecimal()/isnumeric() and int() disagree on them (seed C01-k)
                  "\u00b2", "\u2460", "\u0661\u0662", "\uff11\uff12", "\u00bd", "\u2082", "\u216b", "\u4e09", "007", "-1", "+1", "1_000", "1e5", "0x10", " 12 ", "12\n", "9" * 4400, "9" * 700]
+# RELATED names (seed C01-l: two entry keys that differ only in letter case reach an assertion in the duplicate handling):
+# pairs that are "the same" under some normalisation a maintainer might apply to names, in every pair of name positions
+import unicodedata as _ud
+_REL_BASE = ["Knuth1984", "a", "Straße", "été", "İx", "ﬁle", "key-1", "a.b", "ǅz", "Σσς", "K1", "K1", "x y"]
+
+
+def _related(n):
+    out = [n.lower(), n.upper(), n.swapcase(), n.casefold(), n.title(), _ud.normalize("NFD", n), _ud.normalize("NFKC", n), _ud.normalize("NFKD", n),
+           n + " ", " " + n, n + "\u200b", n[:-1], n + n[-1], n[::-1], n.replace("-", "_").replace(".", "_"), n.strip("1"), n.encode("ascii", "ignore").decode() or "e"]
+    return [m for m in dict.fromkeys(out) if m != n and m.strip() == m and m]
+
+
+RELATED_PAIRS = [(n, m) for n in _REL_BASE for m in _related(n)]
+PAIR_SHAPES = ["@a{%1, t = 1}\n@b{%2, t = 2}", "@a{%1, t = 1}\n@a{%2, t = 2}\n@a{%1, t = 3}\n@a{%2, t = 4}", "@string{%1 = {v}}\n@string{%2 = {w}}\n@a{k, t = %1, u = %2}",
+               "@a{k, %1 = 1, %2 = 2}", "@a{k, %1 = 1, %2 = 2, %1 = 3}", "@%1{k, t = 1}\n@%2{k, t = 2}", "@string{%1 = {v}}\n@a{%2, t = %2 # %1}", "@a{%1, %2 = {x}}\n@a{%2, %1 = {y}}",
+               "@a{%1, t = {x}\n@a{%2, t = {y}}\n@a{%1, t = {z}}", "@a{%2, t = 1, t = 2}\n@a{%1, t = 3}\n@a{%2, t = 4}"]
 NAME_SHAPES = ["@a{%s, t = 1}", "@a{%s, t = 1}\n@a{%s, t = 2}", "@a{%s}\n@b{%s}\n@a{%s,}", "@string{%s = {v}}", "@string{%s = {v}}\n@string{%s = \"w\"}\n@a{k, t = %s}",
                "@a{k, %s = 1}", "@a{k, %s = 1, %s = {2}}", "@a{k, t = 1, %s = 1, u = 2, %s = 3, %s = 4}", "@%s{k, t = 1}", "@%s{k, t = 1}\n@%s{k, t = 2}", "@a{k, t = %s}",
                "@a{k, t = %s # %s}", "@a{%s, %s = %s}\n@a{%s, %s = %s}", "@string{%s = %s}\n@string{%s = %s}", "@a{k, year = {%s}, volume = %s, pages = \"%s\", month = %s, number = {%s}, edition = {%s}, chapter = %s, issue = \"%s\"}",
@@ -188,6 +204,12 @@ def cases(tier, seed, shard, nshards):
             j += 1
             if j % nshards == shard:
                 yield {"k": "names", "text": sh.replace("%s", name)}
+    for n1, n2 in RELATED_PAIRS:
+        for sh in PAIR_SHAPES:
+            for a, b in ((n1, n2), (n2, n1)):
+                j += 1
+                if j % nshards == shard:
+                    yield {"k": "names", "text": sh.replace("%1", a).replace("%2", b), "related": True}
     r = rng_for(seed, shard, "c01")
     n = tier_pick(tier, 40000, 1000000) // nshards
     for i in range(n):
